@@ -147,12 +147,67 @@ def run(chk, tier):
         b = H.peel(arms[tab[v][0]][2])
         ok = H.kind(b) == "mcall" and b[3] == "collect_seq" and H.path_of(b[5][0]) == "numbers"
         chk.expect(ok, "number-binary-forms", "AsNumbers", v, "collect_seq(numbers)", H.show(b, 4), loc=C.fn_loc(hn))
+    # non-finite floats: an if-chain (in the arm itself or in a helper of the same module that the arm calls) that decides
+    # finite -> number first, NaN before any sign test, and emits the infinities only for values known to be infinite
+    dj = fx.crate("dicom_json")
+    value_fns = {hh["path"]: hh for hh in dj["hir"] if hh["path"].startswith(f"{SER}::value::") or hh["path"].startswith(f"<{SER}::value::")}
+
+    def emitted_const(n):
+        out = []
+        for x in H.walk(n):
+            if H.kind(x) == "mcall" and x[3] in ("serialize_element", "serialize_str", "serialize_some") and x[5]:
+                p = H.path_of(x[5][0]) or ""
+                if p.startswith("dicom_json::") and p.split("::")[-1] in ("NAN", "INFINITY", "NEG_INFINITY"):
+                    out.append(p.split("::")[-1])
+        return out
+
+    def float_chains(n):
+        """[(ordered [(condition text, constants emitted in that branch)])] for if-chains that emit the non-finite literals"""
+        chains = []
+        seen = set()
+        for x in H.walk(n):
+            if H.kind(x) != "if" or id(x) in seen:
+                continue
+            chain = []
+            cur = x
+            while H.kind(cur) == "if":
+                seen.add(id(cur))
+                then_consts = [c for c in emitted_const(cur[3])]
+                # constants of nested ifs belong to the nested chain only when the nested if is in the else position
+                chain.append((H.show(cur[2], 6), then_consts))
+                nxt = H.peel(cur[4]) if cur[4] is not None else None
+                if nxt is not None and H.kind(nxt) == "block" and not nxt[2] and nxt[3] is not None:
+                    nxt = H.peel(nxt[3])
+                cur = nxt
+            if any(c for _, c in chain):
+                chains.append(chain)
+        return chains
+
+    def chain_ok(chain):
+        first_finite = "is_finite()" in chain[0][0] and not chain[0][1]
+        nan_seen = False
+        for cond, consts in chain:
+            if "NAN" in consts:
+                if "is_nan()" not in cond:
+                    return False
+                nan_seen = True
+            for k in ("INFINITY", "NEG_INFINITY"):
+                if k in consts and not (nan_seen or "is_infinite()" in cond):
+                    return False
+            if "NEG_INFINITY" in consts and "is_sign_negative()" not in cond and "Lt 0" not in cond:
+                return False
+            if "INFINITY" in consts and "is_sign_positive()" not in cond and "Gt 0" not in cond:
+                return False
+        emitted = sorted({c for _, cs in chain for c in cs})
+        return first_finite and emitted == ["INFINITY", "NAN", "NEG_INFINITY"]
+
     for v in ("F32", "F64"):
         b = arms[tab[v][0]][2]
-        consts = sorted({(H.path_of(x[5][0]) or "").split("::")[-1] for x in H.walk(b) if H.kind(x) == "mcall" and x[3] == "serialize_element" and (H.path_of(x[5][0]) or "").startswith("dicom_json::")})
-        finite = [x for x in H.walk(b) if H.kind(x) == "if" and "is_finite" in H.show(x[2], 4)]
-        chk.expect(consts == ["INFINITY", "NAN", "NEG_INFINITY"] and len(finite) == 1, "number-binary-forms", "AsNumbers", v,
-                   "finite -> number; else NAN / INFINITY / NEG_INFINITY", consts, loc=C.fn_loc(hn))
+        scope = [b] + [value_fns[c]["body"] for c, _ in H.calls(b) if c in value_fns]
+        chains = [ch for s_ in scope for ch in float_chains(s_)]
+        chk.expect(len(chains) >= 1 and all(chain_ok(ch) for ch in chains), "number-binary-forms", "AsNumbers", v,
+                   "finite -> number; then is_nan -> NAN; then infinite&&positive -> INFINITY, infinite&&negative -> NEG_INFINITY",
+                   [[(c[:60], k) for c, k in ch] for ch in chains], loc=C.fn_loc(hn))
     for name, want_val in (("NAN", "NaN"), ("INFINITY", "inf"), ("NEG_INFINITY", "-inf")):
         c = fx.const(f"dicom_json::{name}")
         chk.expect(c["val"] == f'"{want_val}"', "number-binary-forms", f"dicom_json::{name}", "literal", f'"{want_val}"', c["val"])
